@@ -207,20 +207,6 @@ Proof.
     replace (Z.of_nat i * 8) with (8 * Z.of_nat i) by lia. apply eqm64_M64mod.
 Qed.
 
-Lemma loop4_spec : forall (L : list nat) (T : list Z) data h1 h2 c1 c2 body total_len k2 len_tail k1 s,
-  (forall i, In i L -> (i < length T)%nat) -> eqm64 k1 s ->
-  exists k', murmur3_py_loop4 (map Z.of_nat L) data h1 h2 c1 c2 body (map sext8 T) total_len k2 len_tail k1 = Ok k' /\
-             eqm64 k' (tail_word L T s).
-Proof.
-  induction L as [|i L IH]; intros T data h1 h2 c1 c2 body total_len k2 len_tail k1 s HL E.
-  - exists k1. split; [reflexivity|exact E].
-  - cbn [map murmur3_py_loop4 tail_word].
-    rewrite (py_index_nth _ _ _ (sext8_map_nth T i (HL i (or_introl eq_refl)))). cbn [bind]. cbv zeta.
-    apply IH; [intros j Hj; apply HL; right; assumption|].
-    apply eqm64_lxor; [assumption|].
-    replace (Z.of_nat i * 8) with (8 * Z.of_nat i) by lia. apply eqm64_M64mod.
-Qed.
-
 Lemma down_in n i : In i (down n) -> (i < n)%nat.
 Proof. induction n as [|n IH]; cbn; [tauto|]. intros [<-|H]; [lia|]. specialize (IH H). lia. Qed.
 
@@ -402,7 +388,7 @@ Proof.
       replace (8 <? tl)%nat with false by (symmetry; apply Nat.ltb_ge; lia).
       replace (0 <? tl)%nat with true by (symmetry; apply Nat.ltb_lt; lia).
       rewrite range_tail1 by lia.
-      destruct (loop4_spec (down (Nat.min 8 tl)) T data h1' h2' (-8663945395140668459) 5545529020109919103 (map sext64 ws)
+      destruct (loop3_spec (down (Nat.min 8 tl)) T data h1' h2' (-8663945395140668459) 5545529020109919103 (map sext64 ws)
                   (Z.of_nat (length data)) 0 (Z.of_nat tl) 0 0) as (k1' & Hk1 & Ek1).
       { intros i Hi. apply down_in in Hi. fold tl. lia. }
       { apply eqm64_refl. }
